@@ -26,6 +26,7 @@ EXPLANATION = (
     "exactly the selected rules triggered once with the degree the definition gives them (A-sem selection), the degree seen by assert_is_not_vector "
     "before anything treats it as a single number (O-vec); comparator table; size guard; who-may-call: a consequent is modified only through "
     "Rule.trigger (or under the rule's enabled flag)"
+    "; the quick tier includes the degenerate counts 0 and N + 1 and degrees within the comparison tolerance of zero"
 )
 ASSUMPTIONS = [
     "scalar activation degrees (batches are rejected by the O-vec rule for every method but General)",
